@@ -13,6 +13,8 @@ import CopVerif.Gen.Effects
                                         (1 = the checker cannot exclude a write to that parameter's object or to an object held inside it)
     * `effects flat <i>`             → `ok {p:<x> | a:<x>:<y> | f:<x> | w:<x>}` the flat statement set
     * `effects session <i> <j> …`    → `ok <accept|reject> {<var>}` may-written parameters of the union
+    * `effects lifetime <i> <j> …`   → `ok <#stmts> <#params> {<pname> <var> <0|1>}` the parameters of entry `i`
+                                        (a constructor) judged in the union with the entries `j …`
     * `plot <2|3> <scatter|compare> <titled 0|1> <ncols> <col…> <nreq|-1> <req…> <nreal> <cells…> [<nsynth> <cells…>]`
                                      → `ok <#traces> {<Real|Synthetic> <#points> <cells…>}` | `err <kind>` -/
 namespace CopVerif.Driver
@@ -43,6 +45,13 @@ def effects (m : Module) (ws : List String) : String :=
     match i.toNat? >>= entryAt with
     | some (_, f, _) => "ok " ++ " ".intercalate ((flatten m f).map showStmt)
     | none => "bad-op"
+  | "lifetime" :: i :: is =>
+    match i.toNat? >>= entryAt, is.mapM (fun j => j.toNat? >>= entryAt) with
+    | some (_, f, ps), some es =>
+      let prog := flattenMany m (f :: es.map (·.2.1))
+      let per := ps.map fun (pn, v, c) => s!"{pn} {v} {if safeFrom prog [v, c] then 0 else 1}"
+      s!"ok {prog.length} {ps.length} " ++ " ".intercalate per
+    | _, _ => "bad-op"
   | "session" :: is =>
     match is.mapM (fun i => i.toNat? >>= entryAt) with
     | some es =>
